@@ -342,6 +342,28 @@ def extra(stats, tier, seed):
                 loop2.close()
         finally:
             loop.close()
+    faulty_delegate_checks(stats, tier, seed, viol)
+
+
+def faulty_delegate_checks(stats, tier, seed, viol, hang_pattern="shutdown:hang", alive_pattern="shutdown:not-joined",
+                           other_pattern="shutdown:after-failed-delegate-shutdown"):
+    """a delegate whose shutdown() RAISES under each thread-owning layer (shared by C11 and C12)"""
+    from more_executors import Executors
+
+    class Rec(object):
+        def __init__(self):
+            self.calls = []
+            self.subs = 0
+
+        def submit(self, fn, *a, **k):
+            from concurrent.futures import Future
+            self.subs += 1
+            f = Future()
+            f.set_result(fn(*a, **k))
+            return f
+
+        def shutdown(self, *a, **k):
+            self.calls.append((a, tuple(sorted(k.items()))))
     # 2. a delegate whose shutdown() RAISES: the layer is shut down all the same (flag set, submit refused, a repeated shutdown(wait=True)
     #    returns), and its worker thread must still exit - not stay parked for ever - although nobody will call its shutdown again
     import random as _random
@@ -394,11 +416,11 @@ def extra(stats, tier, seed):
         stats.add([[11, 3, trial % 4, 1 if busy else 0]], True, None, ["api:faulty-delegate-shutdown:" + kind])
         if r.exc is not None or r.deadlock or r.hang:
             viol("%s over a delegate whose shutdown() raises: %s" % (kind, "deadlock %s" % (r.deadlock,) if (r.deadlock or r.hang) else getattr(r, "tb", "")[-300:]),
-                 "shutdown:hang", kind)
+                 hang_pattern, kind)
             continue
         if res.get("alive"):
             viol("%s executor over a delegate whose shutdown() raised: the layer is shut down (second shutdown(wait=True) %s, submit: %r) but its worker "
-                 "thread %s never exits" % (kind, res.get("second"), res.get("after"), res["alive"]), "shutdown:not-joined", kind)
+                 "thread %s never exits" % (kind, res.get("second"), res.get("after"), res["alive"]), alive_pattern, kind)
         if res.get("second") != "returned" or res.get("after") != MSG or res.get("calls") != 1:
             viol("%s executor over a delegate whose shutdown() raised: second shutdown %s, submit afterwards %r, delegate shutdown calls %s"
-                 % (kind, res.get("second"), res.get("after"), res.get("calls")), "shutdown:after-failed-delegate-shutdown", kind)
+                 % (kind, res.get("second"), res.get("after"), res.get("calls")), other_pattern, kind)
